@@ -502,6 +502,10 @@ class FuncAnalysis:
                     for nm in seq:
                         cur = env.get(nm)
                         env[nm] = V(tys, origin=(cur.origin if cur else None))
+                    if isinstance(g.iter, ast.Name) and g.iter.id in env and env[g.iter.id].elems is not None \
+                            and len(env[g.iter.id].elems) == len(seq):
+                        cur = env[g.iter.id]       # the tuple the names were collected in carries the refined kinds too
+                        env[g.iter.id] = V(cur.atoms, cur.const, tuple(env[nm] for nm in seq), cur.origin)
             return
         if isinstance(test, ast.Call) and isinstance(test.func, ast.Name) and test.func.id == "isinstance" \
                 and len(test.args) == 2:
@@ -1009,7 +1013,16 @@ class FuncAnalysis:
             vals = list(args)
             if sub.cls is not None and not static and names and names[0] == "self":
                 vals = [V("obj:%s.%s" % (mod, sub.cls))] + vals
-            return sub.run(actuals=dict(zip(names, vals)))
+            rv = sub.run(actuals=dict(zip(names, vals)))
+            # a helper that only returns when its arguments have certain types validates the caller's names too
+            if self._env is not None:
+                off = len(vals) - len(node.args)
+                for i, a_ in enumerate(node.args):
+                    if isinstance(a_, ast.Name) and a_.id in self._env and self._env[a_.id].has("param") and i + off < len(names):
+                        v_ = sub.param_at_exit.get(names[i + off])
+                        if v_ is not None and not v_.has("param", "top", "undef"):
+                            self._env[a_.id] = V(v_.atoms, origin=a_.id)
+            return rv
         val = self.an.validators.get(tgt)
         if val and self._env is not None:
             static = True
